@@ -1,0 +1,37 @@
+// Copyright 2020-2024 IOTA Stiftung
+// SPDX-License-Identifier: Apache-2.0
+
+//! Thin wrappers exposing crate-private items to the out-of-tree verification harnesses (/verif).
+//! Compiled only with the `verif-hooks` feature; contains no logic of its own.
+#![allow(missing_docs, unreachable_pub)]
+
+use crate::error::Result;
+use crate::jws::JwsHeader;
+
+pub fn validate_jws_headers(protected: Option<&JwsHeader>, unprotected: Option<&JwsHeader>) -> Result<()> {
+  crate::jwu::validate_jws_headers(protected, unprotected)
+}
+
+pub fn validate_crit(protected: Option<&JwsHeader>, unprotected: Option<&JwsHeader>) -> Result<()> {
+  crate::jwu::validate_crit(protected, unprotected)
+}
+
+pub fn validate_b64(protected: Option<&JwsHeader>, unprotected: Option<&JwsHeader>) -> Result<()> {
+  crate::jwu::validate_b64(protected, unprotected)
+}
+
+pub fn validate_disjoint(protected: Option<&JwsHeader>, unprotected: Option<&JwsHeader>) -> Result<()> {
+  crate::jwu::validate_disjoint(protected, unprotected)
+}
+
+pub fn create_message(header: &[u8], claims: &[u8]) -> Vec<u8> {
+  crate::jwu::create_message(header, claims)
+}
+
+pub fn extract_b64(header: Option<&JwsHeader>) -> bool {
+  crate::jwu::extract_b64(header)
+}
+
+pub fn filter_non_empty_bytes(value: Option<&[u8]>) -> Option<&[u8]> {
+  crate::jwu::filter_non_empty_bytes(value)
+}
